@@ -4,7 +4,8 @@ import math
 max-plus recurrence written from the statement of C04 (independent of the code under test).
 
 case = {"src":[c0,budget], "stations":[["H"|"P",c] | ["B",delay,K] ...], "sink":c, "T":horizon, "tb":[policy,seed],
-        "expect_sink": n (optional, documented example count)}"""
+        "expect_sink": n (optional, documented example count),
+        "refills": [[time, n>0] ...] (optional: adjust_part_count(+n) from an event at that time), "refill_prio": p}"""
 from simprocesd.model import System
 from simprocesd.model.factory_floor import Source, Sink, PartHandler, PartProcessor, Buffer
 
@@ -27,8 +28,25 @@ def reference(case):
     D = [[] for _ in range(n + 1)]      # D[j][k]: time part k leaves station j (0 = source) = enters station j+1
     blocked = 0
     k = 0
-    while k < budget:
-        ready = (D[0][k - 1] if k > 0 else 0) + c0
+    refills = sorted((r, q) for r, q in case.get('refills', []))
+
+    def allowed_from(k):
+        # the time from which the budget covers part number k (0-based); None = never
+        if k < budget:
+            return 0
+        cum = budget
+        for r, q in refills:
+            cum += q
+            if k < cum:
+                return r
+        return None
+    while True:
+        a = allowed_from(k)
+        if a is None:
+            break
+        # the source started this part's cycle when the previous part left (also when its budget was used up then);
+        # a part the budget does not cover yet waits in the source until the budget is raised
+        ready = max((D[0][k - 1] if k > 0 else 0) + c0, a)
         row = []
         for j in range(0, n + 1):
             nxt = j + 1
@@ -77,6 +95,8 @@ def run_real(case):
         sink = Sink('SINK', upstream=[up], cycle_time=case['sink'])
         names.append('SINK')
         env = s.env
+        for r, q in case.get('refills', []):
+            env.schedule_event(r, src.id, lambda q=q: src.adjust_part_count(q), case.get('refill_prio', 2), 'refill')
         orig = env.step
         st = {'n': 0, 'zero': 0}
 
